@@ -30,6 +30,10 @@ pub trait Operand: Sized {
     fn stored_abs(&self) -> Q {
         abs_total(&self.canon())
     }
+    /// polynomial of |stored coefficients| (no cancellation between repeated terms)
+    fn abs_canon(&self) -> Poly {
+        abs_poly(&self.canon())
+    }
 }
 
 /// plain number operand
@@ -89,6 +93,9 @@ impl Operand for v1::Parameter {
 }
 
 impl Operand for v1::Linear {
+    fn abs_canon(&self) -> Poly {
+        abs_stored_poly(&f_linear(self.clone()))
+    }
     fn stored_abs(&self) -> Q {
         stored_terms(&f_linear(self.clone())).iter().map(|(_, c)| q(*c).abs()).fold(Q::zero(), |a, b| a + b)
     }
@@ -108,6 +115,9 @@ impl Operand for v1::Linear {
 }
 
 impl Operand for v1::Quadratic {
+    fn abs_canon(&self) -> Poly {
+        abs_stored_poly(&f_quadratic(self.clone()))
+    }
     fn stored_abs(&self) -> Q {
         stored_terms(&f_quadratic(self.clone())).iter().map(|(_, c)| q(*c).abs()).fold(Q::zero(), |a, b| a + b)
     }
@@ -127,6 +137,9 @@ impl Operand for v1::Quadratic {
 }
 
 impl Operand for v1::Polynomial {
+    fn abs_canon(&self) -> Poly {
+        abs_stored_poly(&f_polynomial(self.clone()))
+    }
     fn stored_abs(&self) -> Q {
         stored_terms(&f_polynomial(self.clone())).iter().map(|(_, c)| q(*c).abs()).fold(Q::zero(), |a, b| a + b)
     }
@@ -146,6 +159,9 @@ impl Operand for v1::Polynomial {
 }
 
 impl Operand for v1::Function {
+    fn abs_canon(&self) -> Poly {
+        abs_stored_poly(&self.clone())
+    }
     fn stored_abs(&self) -> Q {
         stored_terms(&self.clone()).iter().map(|(_, c)| q(*c).abs()).fold(Q::zero(), |a, b| a + b)
     }
@@ -240,6 +256,8 @@ pub struct Exec {
     /// sum of |coefficient| over the canonical terms of each operand
     pub lhs_stored_abs: Q,
     pub rhs_stored_abs: Q,
+    pub lhs_abs: Poly,
+    pub rhs_abs: Poly,
     pub result: Result<Outcome, crate::monitor::PanicInfo>,
 }
 
@@ -279,6 +297,8 @@ macro_rules! bin {
                 fp: fp.finish(),
                 lhs_stored_abs: l.stored_abs(),
                 rhs_stored_abs: r.stored_abs(),
+                lhs_abs: l.abs_canon(),
+                rhs_abs: r.abs_canon(),
                 result,
             }
         }
@@ -309,6 +329,8 @@ macro_rules! un {
                 fp: fp.finish(),
                 lhs_stored_abs: l.stored_abs(),
                 rhs_stored_abs: Q::zero(),
+                lhs_abs: l.abs_canon(),
+                rhs_abs: Poly::zero(),
                 result,
             }
         }
@@ -619,9 +641,9 @@ impl Property for C02 {
             _ => unreachable!(),
         };
         let abs_expected = match op {
-            "add" | "sub" => abs_poly(&ex.lhs).add(&abs_poly(&ex.rhs)),
-            "mul" => abs_poly(&ex.lhs).mul(&abs_poly(&ex.rhs)),
-            _ => abs_poly(&ex.lhs),
+            "add" | "sub" => ex.lhs_abs.add(&ex.rhs_abs),
+            "mul" => ex.lhs_abs.mul(&ex.rhs_abs),
+            _ => ex.lhs_abs.clone(),
         };
         let exact_mode = match (coef_bits_and_abs(&ex.lhs), coef_bits_and_abs(&ex.rhs)) {
             (Some((ba, sa)), Some((bb, sb))) => {
@@ -670,7 +692,7 @@ fn nary(which: u64, rng: &mut Rng, cfg: &Cfg, mon: &mut Monitor) {
             let mut abs_e = Poly::zero();
             for x in &xs {
                 expected = expected.add(&canon_linear(x));
-                abs_e = abs_e.add(&abs_poly(&canon_linear(x)));
+                abs_e = abs_e.add(&x.abs_canon());
             }
             mon.facet(&format!("sum:Linear[{n}]"));
             let shown = format!("{xs:?}");
@@ -683,7 +705,7 @@ fn nary(which: u64, rng: &mut Rng, cfg: &Cfg, mon: &mut Monitor) {
             let mut abs_e = Poly::zero();
             for x in &xs {
                 expected = expected.add(&canon_function(x));
-                abs_e = abs_e.add(&abs_poly(&canon_function(x)));
+                abs_e = abs_e.add(&x.abs_canon());
             }
             mon.facet(&format!("sum:Function[{n}]"));
             let shown = format!("{xs:?}");
@@ -700,7 +722,7 @@ fn nary(which: u64, rng: &mut Rng, cfg: &Cfg, mon: &mut Monitor) {
             let mut abs_e = Poly::constant(qi(1));
             for x in &xs {
                 expected = expected.mul(&canon_function(x));
-                abs_e = abs_e.mul(&abs_poly(&canon_function(x)));
+                abs_e = abs_e.mul(&x.abs_canon());
             }
             mon.facet(&format!("product:Function[{n}]"));
             let shown = format!("{xs:?}");
